@@ -1,0 +1,11 @@
+//go:build verif
+
+package engine
+
+import "github.com/openGemini/openGemini/engine/index/tsi"
+
+// TagRows lists the tag->tsids rows of (measurement, tag key) of the primary index table in the
+// order of a table search (C13: the row structure SHOW TAG VALUES walks).
+func (v *VerifDropShard) TagRows(mst, key string) ([]tsi.VerifTagRow, error) {
+	return v.prim.VerifTagRows([]byte(mst), []byte(key))
+}
